@@ -93,7 +93,11 @@ def build(shape, L, tag):
                  f"    print *, self%ct_{T}, self%c0_{T}", "  end subroutine"]
         body += [f"end module me_{T}", f"program pe_{T}", f"  use me_{T}", f"  type(t0_{T}) :: o",
                  f"  type(tail2_{T}) :: ot",
-                 f"  o%c0_{T} = 1", f"  call o%p0_{T}()", f"  call ot%ov_{T}()", f"end program pe_{T}"]
+                 f"  o%c0_{T} = 1", f"  call o%p0_{T}()", f"  call ot%ov_{T}()",
+                 # chains whose middle part is no component of the (cyclic) type, or its parent part
+                 f"  o%zz_{T}%n = 2", f"  print *, ot%zz_{T}%c0_{T}%x, o%t{nxt(0, L)}_{T}%c{nxt(0, L)}_{T}",
+                 f"  associate (qa_{T} => o%zz_{T}%n, qb_{T} => ot%tail_{T}%zz_{T}%m)", f"    print *, qa_{T}, qb_{T}",
+                 "  end associate", f"end program pe_{T}"]
         f[f"e_{T}.f90"] = "\n".join(body) + "\n"
         brk = (f"e_{T}.f90", f"  type, extends(t{nxt(0, L)}_{T}) :: t0_{T}", f"  type :: t0_{T}")
     elif shape == "extends_cross":
@@ -107,7 +111,8 @@ def build(shape, L, tag):
                 f"    call self%ovx_{T}()\n  end subroutine\n"
                 f"  subroutine ovx{i}_{T}(self)\n    class(tx{i}_{T}) :: self\n  end subroutine\nend module mx{i}_{T}\n")
         f[f"xp_{T}.f90"] = (f"program px_{T}\n  use mx0_{T}\n  type(tx0_{T}) :: o\n  o%d0_{T} = 1.0\n"
-                            f"  call o%g0_{T}()\nend program\n")
+                            f"  call o%g0_{T}()\n  o%zz_{T}%n = 2\n  print *, o%zz_{T}%d0_{T}%x, o%tx{nxt(0, L)}_{T}%d{nxt(0, L)}_{T}\n"
+                            f"  associate (qa_{T} => o%zz_{T}%n)\n    print *, qa_{T}\n  end associate\nend program\n")
         brk = (f"x0_{T}.f90", f"  type, extends(tx{nxt(0, L)}_{T}) :: tx0_{T}", f"  type :: tx0_{T}")
     elif shape == "submodule":
         f[f"sm_{T}.f90"] = (f"module par_{T}\n  implicit none\n  interface\n    module subroutine ms_{T}(a)\n"
@@ -122,6 +127,12 @@ def build(shape, L, tag):
         if L >= 2:
             f[f"sbs_{T}.f90"] = (f"submodule (sbs_{T}) sbs_{T}\ncontains\n  subroutine q_{T}()\n  end subroutine\n"
                                  f"end submodule\n")
+        # a leaf submodule hanging off the cycle without being on it (rho shape): names of its
+        # ancestors, of nobody, and locals that may mask host names
+        f[f"sbtail_{T}.f90"] = (
+            f"submodule (par_{T}:sb0_{T}) sbtail_{T}\n  implicit none\n  integer :: kt_{T}\ncontains\n"
+            f"  subroutine wt_{T}(a)\n    integer :: a\n    integer :: k0_{T}\n    kt_{T} = a + k{nxt(0, L)}_{T} + nowhere_{T}\n"
+            f"    call ms_{T}(kt_{T})\n  end subroutine\nend submodule sbtail_{T}\n")
         brk = (f"sb0_{T}.f90", f"submodule (par_{T}:sb{nxt(0, L)}_{T}) sb0_{T}", f"submodule (par_{T}) sb0_{T}")
     elif shape == "submodule_direct":
         # submodules naming each other (or themselves) directly as parent
@@ -132,6 +143,11 @@ def build(shape, L, tag):
                 f"submodule (sd{j}_{T}) sd{i}_{T}\n  implicit none\n  integer :: kd{i}_{T}\ncontains\n"
                 f"  subroutine wd{i}_{T}(a)\n    integer :: a\n    kd{i}_{T} = a + kd{j}_{T} + pv_{T}\n"
                 f"    call wd{j}_{T}(a)\n  end subroutine\nend submodule sd{i}_{T}\n")
+        f[f"sdtail_{T}.f90"] = (
+            f"submodule (sd0_{T}) sdtail_{T}\n  implicit none\n  integer :: kdt_{T}\ncontains\n"
+            f"  subroutine wdt_{T}(a)\n    integer :: a\n    integer :: kd0_{T}\n"
+            f"    kdt_{T} = a + kd{nxt(0, L)}_{T} + pv_{T} + nowhere_{T}\n    call wd0_{T}(a)\n  end subroutine\n"
+            f"end submodule sdtail_{T}\n")
         brk = (f"sd0_{T}.f90", f"submodule (sd{nxt(0, L)}_{T}) sd0_{T}", f"submodule (pard_{T}) sd0_{T}")
     elif shape == "include_scoped":
         # INCLUDE cycles where the INCLUDE statements sit inside program units
